@@ -350,6 +350,73 @@ func checkPages(sc *Scenario, w, l *OpResult, active []int) []Issue {
 			}
 		}
 	}
+	// orphans / widows: a paragraph split over pages leaves >= orphans lines before and
+	// >= widows lines after each break (a conforming break exists: the paragraphs of these
+	// scenarios are much shorter than a page)
+	if len(e.Paras) > 0 && len(w.PageLines) == n && e.Orphans > 0 {
+		lineOf := map[string][2]int{} // word -> (page, line index on page)
+		for p, ls := range w.PageLines {
+			for li, l := range ls {
+				for _, x := range l.Words {
+					if _, ok := lineOf[x]; !ok {
+						lineOf[x] = [2]int{p, li}
+					}
+				}
+			}
+		}
+		for _, para := range e.Paras {
+			perPage := map[int]map[int]bool{}
+			var pages []int
+			for _, x := range para {
+				pl, ok := lineOf[x]
+				if !ok {
+					continue
+				}
+				if perPage[pl[0]] == nil {
+					perPage[pl[0]] = map[int]bool{}
+					pages = append(pages, pl[0])
+				}
+				perPage[pl[0]][pl[1]] = true
+			}
+			if len(pages) < 2 {
+				continue
+			}
+			sort.Ints(pages)
+			total := 0
+			for _, pg := range pages {
+				total += len(perPage[pg])
+			}
+			if total < e.Orphans+e.Widows {
+				out = append(out, Issue{"break:orphans-widows", "unsplittable-split", fmt.Sprintf("paragraph starting with %q has %d lines (< orphans %d + widows %d) but is split over pages %v", para[0], total, e.Orphans, e.Widows, pages)})
+				continue
+			}
+			if len(perPage[pages[0]]) < e.Orphans {
+				out = append(out, Issue{"break:orphans-widows", "orphans", fmt.Sprintf("paragraph starting with %q leaves %d line(s) at the bottom of page %d, orphans is %d", para[0], len(perPage[pages[0]]), pages[0]+1, e.Orphans)})
+			}
+			last := pages[len(pages)-1]
+			if len(perPage[last]) < e.Widows {
+				out = append(out, Issue{"break:orphans-widows", "widows", fmt.Sprintf("paragraph starting with %q leaves %d line(s) at the top of page %d, widows is %d", para[0], len(perPage[last]), last+1, e.Widows)})
+			}
+		}
+	}
+	for _, grp := range e.KeepTogether {
+		pgs := map[int]bool{}
+		for _, x := range grp {
+			if p, ok := pageOf[x]; ok {
+				pgs[p] = true
+			}
+		}
+		if len(pgs) > 1 {
+			out = append(out, Issue{"break:avoid-inside", "break-inside", fmt.Sprintf("box starting with %q has break-inside: avoid and fits a page, but is split over %d pages", grp[0], len(pgs))})
+		}
+	}
+	for _, kw := range e.KeepWithNext {
+		pa, oka := pageOf[kw[0]]
+		pb, okb := pageOf[kw[1]]
+		if oka && okb && pa != pb {
+			out = append(out, Issue{"break:avoid-after", "break-after", fmt.Sprintf("%q has break-after: avoid but the next box (%q) starts on page %d instead of %d", kw[0], kw[1], pb+1, pa+1)})
+		}
+	}
 	// geometry from the laid-out tree
 	if l != nil && l.Status == "ok" && e.Geometry {
 		for p, g := range l.PageGeom {
